@@ -863,7 +863,26 @@ fn judge_string(tera: &Tera, s: &str, acc: &mut Acc, sample: bool) {
 }
 
 fn json_space() -> Vec<V> {
-    let base: Vec<V> = vals::alphabet_v();
+    let mut base: Vec<V> = vals::alphabet_v();
+    // the 64-bit boundaries held in the 128-bit encodings (arithmetic results are always I128;
+    // seeded change C20-3 narrowed I128 values just below i64::MIN through `as i64`)
+    for i in [
+        i64::MIN as i128,
+        i64::MIN as i128 - 1,
+        -(u64::MAX as i128),
+        -(u64::MAX as i128) - 1,
+        i64::MAX as i128,
+        i64::MAX as i128 + 1,
+        u64::MAX as i128,
+        u64::MAX as i128 + 1,
+    ] {
+        base.push(V::I128(i));
+    }
+    for u in [i64::MAX as u128, i64::MAX as u128 + 1, u64::MAX as u128, u64::MAX as u128 + 1, i128::MAX as u128, i128::MAX as u128 + 1] {
+        base.push(V::U128(u));
+    }
+    base.push(V::U64(u64::MAX));
+    base.push(V::I64(i64::MAX));
     let mut out = base.clone();
     for v in &base {
         out.push(V::Arr(vec![v.clone()]));
@@ -913,7 +932,7 @@ fn main() {
             "string_alphabet": alpha.iter().map(|c| format!("{c:?}")).collect::<Vec<_>>().join(" "),
             "string_alphabet_size": n_alpha,
             "decoder_alphabet": DEC_ALPHABET.iter().map(|c| format!("{c:?}")).collect::<Vec<_>>().join(" "),
-            "json_values": "mccore::vals::alphabet_v() alone, [v], {\"k\": v}, [v, w], {\"a\": v, \"b\": w} + 5 maps with non-string / escaping / colliding keys",
+            "json_values": "mccore::vals::alphabet_v() + the 64-bit boundaries in the 128-bit encodings, alone, [v], {\"k\": v}, [v, w], {\"a\": v, \"b\": w} + 5 maps with non-string / escaping / colliding keys",
         }),
     );
     run.extra("bounds", json!({"string_max_len": max_len, "long_lengths": "0..=64 x 47 rotations, 4096-byte ASCII, 4 KiB multi-byte", "decoder_input_max_len": dec_max_len}));
